@@ -4,6 +4,7 @@ import (
 	"fmt"
 	"go/types"
 	"reflect"
+	"strings"
 	"unsafe"
 
 	"verif/engine/smt"
@@ -183,6 +184,14 @@ func init() {
 				panic(p)
 			}
 			return c.tensorVal(n)
+		},
+		"Engine": func(c *Ctx, s *Shadow, args []Value, sig *types.Signature) Value {
+			// every tensor of the harnesses and of gonnx is created on the default engine
+			if _, ok := s.twin.Engine().(tensor.StdEng); !ok {
+				panic(c.abort("tensor on an engine other than tensor.StdEng"))
+			}
+			T := c.lookupType("gorgonia.org/tensor", "StdEng")
+			return IfaceV{T: T, V: c.zero(T)}
 		},
 		"ShallowClone": func(c *Ctx, s *Shadow, args []Value, sig *types.Signature) Value {
 			// a new tensor object (own shape and strides) over the SAME elements
@@ -539,6 +548,8 @@ func (c *Ctx) tensorNew(dt *tensor.Dtype, opts []Value) *Shadow {
 			haveD = true
 		case "FromScalar":
 			scalar = ov.Arg
+		case "WithEngine":
+			// the default engine spelled out: what tensor.New uses anyway
 		default:
 			panic(c.abort("tensor.New option %s", ov.Kind))
 		}
@@ -648,6 +659,12 @@ func (c *Ctx) registerTensorIntrinsics(tab map[string]intrinsicFn) {
 	}
 	tab[P+"WithReuse"] = func(c *Ctx, fn *ssa.Function, a []Value) Value {
 		return OptV{Kind: "WithReuse", Arg: a[0]}
+	}
+	tab[P+"WithEngine"] = func(c *Ctx, fn *ssa.Function, a []Value) Value {
+		if iv, ok := a[0].(IfaceV); !ok || iv.T == nil || !strings.HasSuffix(typeString(iv.T), "tensor.StdEng") {
+			panic(c.abort("tensor.WithEngine with an engine other than tensor.StdEng"))
+		}
+		return OptV{Kind: "WithEngine"}
 	}
 	tab[P+"AsSameType"] = func(c *Ctx, fn *ssa.Function, a []Value) Value { return OptV{Kind: "AsSameType"} }
 	tab[P+"UseUnsafe"] = func(c *Ctx, fn *ssa.Function, a []Value) Value { return OptV{Kind: "UseUnsafe"} }
